@@ -2,17 +2,20 @@ From IL Require Export Checks.GroupA.
 Open Scope N_scope.
 
 (* one engine run: program, EDB, and the implementation's answer (None = error) *)
-Inductive c01case := C01Case (fuel : nat) (p : program) (edb : db) (impl : option (list tuple)).
+Inductive c01case := C01Case (fuel : nat) (p : program) (edb : db) (impl : option (list tuple))
+  (* the same program through the protocol handler as persistent rules: None = not run / rule refused *)
+  (via_handler : option (option (list tuple))).
 
 Definition c01_one (c : c01case) : N * (bool * bool) :=
   match c with
-  | C01Case fuel p edb impl =>
+  | C01Case fuel p edb impl via =>
       let known := known_of p in
       let q := match query_rel p with Some q => q | None => 0 end in
       (* property oracle: the implementation's answer equals the query relation of the perfect model *)
       let prop :=
         match perfect_model fuel p edb with
-        | Some m => match impl with Some ans => set_eqb ans (get m q) | None => false end
+        | Some m => match impl with Some ans => set_eqb ans (get m q) | None => false end &&
+                    match via with Some (Some ans) => set_eqb ans (get m q) | Some None => false | None => true end
         | None => true     (* out of fuel / not stratified: not in the property's domain *)
         end in
       (* correspondence: the model of the engine's strategy predicts the implementation's answer *)
